@@ -303,6 +303,10 @@ func (s *State) libStringToRunes(x Val, to types.Type) Val {
 	b := s.newRef()
 	r := Val{T: to, Sl: &SliceV{b, "0", n, n}}
 	if !types.Identical(to.Underlying().(*types.Slice).Elem().Underlying(), types.Typ[types.Int32]) {
+		// []byte(s): remember the text the bytes came from
+		s.c.declare("textOfBytes", "(declare-fun textOfBytes (Int Int Int) Str)")
+		s.assume(eq(app("textOfBytes", b, "0", n), x.S))
+		s.assume(eq(n, app("blen", x.S)))
 		return r
 	}
 	s.used("[]rune(s): clean s has vlen(s)+nl(s) runes; newline-free / clean strings give newline-free / control-free rune arrays")
